@@ -344,17 +344,18 @@ theorem geom_of_find_base {b : View} {l : Layer} {x : Id} {fv : FV} (hx : AMap.g
 
 /-- `NewModifiedFeaturesWithCopies` + `Update` keep the copy discipline: every base-only feature naming the
 replaced feature is one of its referrers (completeness) and is therefore copied -/
-theorem copyDisc_commit {b : View} {l : Layer} {f : Feature} (hb : b.IdsOK) (hl : l.FeatsId)
+theorem copyDisc_commit {b : View} {l l1 : Layer} {f : Feature} (hb : b.IdsOK) (hl : l.FeatsId) (hs : l.Same l1)
     (hcd : CopyDisc b l) (hrc : RefsComplete (l.view b (l.loc b))) :
-    CopyDisc b (l.commit f (l.referrers b f.id)) := by
-  have hc := copy_fold f.id (l.referrers b f.id) (l, [])
+    CopyDisc b (l1.commit f (l.referrers b f.id)) := by
+  have hc := copy_fold f.id (l.referrers b f.id) (l1, [])
   simp only at hc
   intro x gx P g hx hgx hP hPg
   rw [commit_feats] at hx hPg
   have hxne : x ≠ f.id := by intro he; simp [he] at hx
   simp only [hxne, ↓reduceIte, copyReferrers] at hx
   have hxl : AMap.get l.feats x = none := by
-    cases h : AMap.get l.feats x with
+    rw [← hs.feats]
+    cases h : AMap.get l1.feats x with
     | none => rfl
     | some g' => rw [hc.2.1 x g' h] at hx; cases hx
   by_cases hPi : P = f.id
@@ -369,12 +370,13 @@ theorem copyDisc_commit {b : View} {l : Layer} {f : Feature} (hb : b.IdsOK) (hl 
       have hfid : fv.f.id = x := view_idsOK hb hl (l.loc b) x fv (by rw [find_view]; exact hfv)
       have hin : fv ∈ l.referrers b f.id := by
         simp only [Layer.referrers, List.mem_filterMap]; exact ⟨x, hmem, hfv⟩
-      have := copy_fold3 f.id (l.referrers b f.id) (l, []) fv hin (by rw [hfid]; exact hxne)
+      have := copy_fold3 f.id (l.referrers b f.id) (l1, []) fv hin (by rw [hfid]; exact hxne)
       rw [hfid, hx] at this; cases this
   · simp only [hPi, ↓reduceIte, copyReferrers] at hPg
     rcases hc.2.2 P g hPg with h | ⟨h1, _, r, hr, h3, h4⟩
-    · exact hcd x gx P g hxl hgx hP h
-    · have hfind := referrers_find hb hl f.id r hr
+    · rw [hs.feats] at h; exact hcd x gx P g hxl hgx hP h
+    · rw [hs.feats] at h1
+      have hfind := referrers_find hb hl f.id r hr
       rw [h3, h4] at hfind
       exact ⟨g.geom, by rw [← h3]; exact (h3 ▸ geom_of_find_base h1 hfind), rfl⟩
 
@@ -555,5 +557,309 @@ theorem allValid_commit {b : View} {o : Oracle} {l : Layer} {f : Feature} {v' : 
     by_cases hd : Dep (l.view b (l.loc b)) g f.id
     · exact hdepvalid x g hg hd
     · rw [validateG_unchanged htmp o _ hd]; exact hav x g hg
+
+/-! ## the invariants of a reachable world, call by call -/
+
+/-- what the theorems assume of a base world: consistent ids and locations, a complete `FindReferences` -/
+structure BaseOK (b : View) : Prop where
+  ids : b.IdsOK
+  loc : b.LocOK
+  rc : RefsComplete b
+
+/-- the invariants of one world object over its base -/
+structure Inv (b : View) (o : Oracle) (l : Layer) : Prop where
+  feats : l.FeatsId
+  refs : RefsInv l
+  cd : CopyDisc b l
+  av : AllValid (l.view b (l.loc b)) o
+
+theorem Inv.rc {b : View} {o : Oracle} {l : Layer} (hb : BaseOK b) (h : Inv b o l) :
+    RefsComplete (l.view b (l.loc b)) := refsComplete_view hb.rc h.refs h.cd _
+
+theorem inv_same {b : View} {o : Oracle} {l l' : Layer} (hs : l.Same l') (h : Inv b o l) : Inv b o l' :=
+  ⟨featsId_same hs h.feats, refsInv_same hs h.refs, copyDisc_same hs h.cd, allValid_sameG (sameG_of_same hs) h.av⟩
+
+def primOK : Prim → Bool
+  | .feat f => selfFree f
+  | _ => true
+
+theorem copyDisc_addTag {b : View} {l l' : Layer} {id : Id} {tag : Tag} (hb : b.IdsOK) (hl : l.FeatsId)
+    (hcd : CopyDisc b l) (h : l.addTag b id tag = .ok l') : CopyDisc b l' := by
+  unfold Layer.addTag at h
+  cases hf : AMap.get l.feats id with
+  | some f => simp only [hf, Except.ok.injEq] at h; subst h; exact copyDisc_retag hcd hf
+  | none =>
+    simp only [hf] at h
+    cases hv : l.find b id with
+    | none => simp [hv] at h
+    | some fv =>
+      simp only [hv] at h
+      have hfid : fv.f.id = id := view_idsOK hb hl (l.loc b) id fv (by rw [find_view]; exact hv)
+      split at h
+      · cases h
+        apply copyDisc_adopt hcd
+        simp only [hfid]
+        exact geom_of_find_base hf hv
+      · cases h; exact hcd
+
+theorem copyDisc_removeTag {b : View} {l l' : Layer} {id : Id} {key : Key} (hb : b.IdsOK) (hl : l.FeatsId)
+    (hcd : CopyDisc b l) (h : l.removeTag b id key = .ok l') : CopyDisc b l' := by
+  unfold Layer.removeTag at h
+  cases hf : AMap.get l.feats id with
+  | some f => simp only [hf, Except.ok.injEq] at h; subst h; exact copyDisc_retag hcd hf
+  | none =>
+    simp only [hf] at h
+    cases hv : l.find b id with
+    | none => simp [hv] at h
+    | some fv =>
+      simp only [hv] at h
+      have hfid : fv.f.id = id := view_idsOK hb hl (l.loc b) id fv (by rw [find_view]; exact hv)
+      split at h
+      · cases h; exact hcd
+      · split at h
+        · cases h
+          apply copyDisc_adopt hcd
+          simp only [hfid]
+          exact geom_of_find_base hf hv
+        · cases h; exact hcd
+
+/-- every call keeps the invariants, whatever it answers -/
+theorem inv_prim {b : View} {o : Oracle} {l : Layer} (p : Prim) (hb : BaseOK b) (h : Inv b o l)
+    (hp : primOK p = true) : Inv b o (p.apply b o l).1 := by
+  cases p with
+  | feat f =>
+    simp only [Prim.apply]
+    cases hr : l.addFeature b o f with
+    | mk l' r =>
+      cases r with
+      | some e => exact inv_same (addFeature_err_same hr) h
+      | none =>
+        obtain ⟨hvalid, hrefs, l1, hs, hl'⟩ := addFeature_ok_facts hr
+        refine ⟨featsId_addFeature h.feats hr, refsInv_addFeature h.feats h.refs hr, ?_, ?_⟩
+        · rw [hl']; exact copyDisc_commit hb.ids h.feats hs h.cd (h.rc hb)
+        · have hovr : Ovr (l.view b (l.loc b)) (l'.view b (l'.loc b)) f.id f :=
+            ⟨fun x => by
+                rw [loc_view, loc_view, (geom_addFeature hb.ids hb.loc h.feats hr x).2]; simp,
+             fun x => by
+                rw [geomOf_view, geomOf_view, (geom_addFeature hb.ids hb.loc h.feats hr x).1]; simp⟩
+          exact allValid_commit hb.loc h.av (h.rc hb) hovr hp hvalid hrefs
+  | tag id t =>
+    simp only [Prim.apply]
+    cases hs : l.addTag b id t with
+    | error e => exact h
+    | ok l' =>
+      exact ⟨featsId_addTag h.feats hs, refsInv_addTag hb.ids h.feats h.refs hs,
+        copyDisc_addTag hb.ids h.feats h.cd hs,
+        allValid_sameG (sameG_addTag hb.ids hb.loc h.feats hs) h.av⟩
+  | untag id k =>
+    simp only [Prim.apply]
+    cases hs : l.removeTag b id k with
+    | error e => exact h
+    | ok l' =>
+      exact ⟨featsId_removeTag h.feats hs, refsInv_removeTag hb.ids h.feats h.refs hs,
+        copyDisc_removeTag hb.ids h.feats h.cd hs,
+        allValid_sameG (sameG_removeTag hb.ids hb.loc h.feats hs) h.av⟩
+
+theorem inv_prims {b : View} {o : Oracle} (hb : BaseOK b) (ps : List Prim) : ∀ l : Layer, Inv b o l →
+    (∀ p ∈ ps, primOK p = true) → Inv b o (applyPrims b o l ps).1 := by
+  induction ps with
+  | nil => intro l h _; exact h
+  | cons p rest ih =>
+    intro l h hok
+    have h1 := inv_prim (o := o) p hb h (hok p List.mem_cons_self)
+    simp only [applyPrims]
+    cases hp : p.apply b o l with
+    | mk l1 r1 =>
+      rw [hp] at h1
+      cases r1 with
+      | none => exact ih l1 h1 (fun q hq => hok q (List.mem_cons_of_mem _ hq))
+      | some e => exact h1
+
+/-! ## the canary is faithful: no run-time hypothesis -/
+
+theorem addFeature_verdict_values (b : View) (o : Oracle) (l : Layer) (f : Feature) :
+    (l.addFeature b o f).2 = none ∨ (l.addFeature b o f).2 = some Err.invalid := by
+  rw [addFeature_verdict]
+  split
+  · exact Or.inr rfl
+  · split
+    · exact Or.inl rfl
+    · split
+      · exact Or.inr rfl
+      · exact Or.inl rfl
+
+theorem dep_congr {v v' : View} (hg : ∀ x, geomOf v' x = geomOf v x) (g : Geom) (id : Id) :
+    Dep v' g id ↔ Dep v g id := by
+  unfold Dep; simp only [hg]
+
+/-- **one `AddFeature` on the canary and on the world: the same answer**, from the invariants alone -/
+theorem addFeature_same_verdict_inv {v0 b : View} {o : Oracle} {c l : Layer} {f : Feature}
+    (hv0 : BaseOK v0) (hb : BaseOK b) (hs : Sim v0 b c l) (hc : Inv v0 o c) (hl : Inv b o l) :
+    (c.addFeature v0 o f).2 = (l.addFeature b o f).2 := by
+  have e1 := addFeature_err_iff (f := f) hc.av (hc.rc hv0)
+  have e2 := addFeature_err_iff (f := f) hl.av (hl.rc hb)
+  have hg := cw_gagree hs.cw (l.loc b) (c.loc v0)
+  have hgt := cw_gagree (cw_putTmp hs.cw f) ((l.putTmp f).loc b) ((c.putTmp f).loc v0)
+  have hv : ∀ g, validateG (c.view v0 (c.loc v0)) o g = validateG (l.view b (l.loc b)) o g :=
+    validateG_congr hg.loc hg.geom o
+  have hvt : ∀ g, validateG ((c.putTmp f).view v0 ((c.putTmp f).loc v0)) o g =
+      validateG ((l.putTmp f).view b ((l.putTmp f).loc b)) o g := validateG_congr hgt.loc hgt.geom o
+  have hbad : Bad (c.view v0 (c.loc v0)) ((c.putTmp f).view v0 ((c.putTmp f).loc v0)) o f.id ↔
+      Bad (l.view b (l.loc b)) ((l.putTmp f).view b ((l.putTmp f).loc b)) o f.id := by
+    unfold Bad
+    constructor
+    · rintro ⟨x, g, h1, h2, h3⟩
+      exact ⟨x, g, by rw [← hg.geom]; exact h1, (dep_congr hg.geom g f.id).1 h2, by rw [← hvt]; exact h3⟩
+    · rintro ⟨x, g, h1, h2, h3⟩
+      exact ⟨x, g, by rw [hg.geom]; exact h1, (dep_congr hg.geom g f.id).2 h2, by rw [hvt]; exact h3⟩
+  have hiff : (c.addFeature v0 o f).2 ≠ none ↔ (l.addFeature b o f).2 ≠ none := by
+    rw [e1, e2, hv, hbad]
+  rcases addFeature_verdict_values v0 o c f with h1 | h1 <;>
+    rcases addFeature_verdict_values b o l f with h2 | h2
+  · rw [h1, h2]
+  · exact absurd h1 (hiff.2 (by rw [h2]; simp))
+  · exact absurd h2 (hiff.1 (by rw [h1]; simp))
+  · rw [h1, h2]
+
+/-- **any sequence of calls**: the canary and the world give the same answer -/
+theorem prims_faithful_inv {v0 b : View} {o : Oracle} (hv0 : BaseOK v0) (hb : BaseOK b) (ps : List Prim) :
+    ∀ (c l : Layer), Sim v0 b c l → Inv v0 o c → Inv b o l → (∀ p ∈ ps, primOK p = true) →
+      (applyPrims v0 o c ps).2 = (applyPrims b o l ps).2 := by
+  induction ps with
+  | nil => intro c l _ _ _ _; rfl
+  | cons p rest ih =>
+    intro c l hs hc hl hok
+    obtain ⟨hv, hs'⟩ := prim_step (o := o) p hv0.ids hv0.loc hb.ids hb.loc hs
+      (fun f _ => addFeature_same_verdict_inv hv0 hb hs hc hl)
+    have hc' := inv_prim (o := o) p hv0 hc (hok p List.mem_cons_self)
+    have hl' := inv_prim (o := o) p hb hl (hok p List.mem_cons_self)
+    simp only [applyPrims]
+    cases h1 : p.apply v0 o c with
+    | mk c' rc =>
+      cases h2 : p.apply b o l with
+      | mk l' rl =>
+        rw [h1, h2] at hv hs'
+        rw [h1] at hc'
+        rw [h2] at hl'
+        simp only at hv hs' hc' hl'
+        subst hv
+        cases rc with
+        | none => exact ih c' l' hs' hc' hl' (fun q hq => hok q (List.mem_cons_of_mem _ hq))
+        | some e => rfl
+
+/-- a fresh overlay over a world that satisfies the invariants: its base is fine, it satisfies them too -/
+theorem canary_init {b : View} {o : Oracle} {l : Layer} (hb : BaseOK b) (h : Inv b o l) :
+    BaseOK (l.view b (l.loc b)) ∧ Inv (l.view b (l.loc b)) o Layer.empty := by
+  refine ⟨⟨view_idsOK hb.ids h.feats _, view_locOK hb.loc l _, h.rc hb⟩,
+    ⟨fun i f hf => by simp [Layer.empty] at hf, refsInv_empty, copyDisc_empty _, ?_⟩⟩
+  have hloc : (Layer.empty.view (l.view b (l.loc b)) (Layer.empty.loc (l.view b (l.loc b)))).loc =
+      (l.view b (l.loc b)).loc := by
+    funext x; rw [loc_view]; simp [layerLoc, Layer.empty]
+  have hgeo : ∀ x, geomOf (Layer.empty.view (l.view b (l.loc b)) (Layer.empty.loc (l.view b (l.loc b)))) x =
+      geomOf (l.view b (l.loc b)) x := by
+    intro x; rw [geomOf_view]; simp [layerGeom, Layer.empty]
+  intro x g hg
+  rw [validateG_congr hloc hgeo]
+  exact h.av x g (by rw [← hgeo]; exact hg)
+
+/-- a fresh overlay over a valid base satisfies the invariants -/
+theorem inv_empty {b : View} {o : Oracle} (hav : AllValid b o) : Inv b o Layer.empty := by
+  refine ⟨fun i f hf => by simp [Layer.empty] at hf, refsInv_empty, copyDisc_empty _, ?_⟩
+  have hloc : (Layer.empty.view b (Layer.empty.loc b)).loc = b.loc := by
+    funext x; rw [loc_view]; simp [layerLoc, Layer.empty]
+  have hgeo : ∀ x, geomOf (Layer.empty.view b (Layer.empty.loc b)) x = geomOf b x := by
+    intro x; rw [geomOf_view]; simp [layerGeom, Layer.empty]
+  intro x g hg
+  rw [validateG_congr hloc hgeo]
+  exact hav x g (by rw [← hgeo]; exact hg)
+
+def changesOK (cs : List Change) : Prop := ∀ p ∈ cs.flatMap Change.prims, primOK p = true
+
+def opOKsf : Op → Prop
+  | .addFeature f => selfFree f = true
+  | .merged cs => changesOK cs
+  | _ => True
+
+/-- every operation of the mutable world keeps the invariants, whatever it answers -/
+theorem inv_step {b : View} {o : Oracle} {l : Layer} (op : Op) (hb : BaseOK b) (h : Inv b o l) (hop : opOKsf op) :
+    Inv b o (l.step b o op).1 := by
+  cases op with
+  | addFeature f => exact inv_prim (.feat f) hb h hop
+  | addTag id t =>
+    have := inv_prim (o := o) (.tag id t) hb h rfl
+    simp only [Prim.apply] at this
+    simp only [Layer.step]
+    cases hs : l.addTag b id t with
+    | ok l' => rw [hs] at this; exact this
+    | error e => exact h
+  | removeTag id k =>
+    have := inv_prim (o := o) (.untag id k) hb h rfl
+    simp only [Prim.apply] at this
+    simp only [Layer.step]
+    cases hs : l.removeTag b id k with
+    | ok l' => rw [hs] at this; exact this
+    | error e => exact h
+  | merged cs =>
+    simp only [Layer.step]
+    have hall := inv_prims (o := o) hb (cs.flatMap Change.prims) l h hop
+    rw [← applyAll_eq_prims] at hall
+    rcases mergedApply_cases b o l cs with ⟨e, _, he, _⟩ | ⟨l1, h1, h2⟩ | ⟨l1, e, h1, h2, _⟩
+    · rw [he]; exact h
+    · rw [h1]; rw [h2] at hall; exact hall
+    · rw [h1]; rw [h2] at hall; exact hall
+
+theorem inv_runOps {b : View} {o : Oracle} (hb : BaseOK b) (ops : List Op) : ∀ l : Layer, Inv b o l →
+    (∀ op ∈ ops, opOKsf op) → Inv b o (runOps b o l ops).1 := by
+  induction ops with
+  | nil => intro l h _; exact h
+  | cons op rest ih =>
+    intro l h hok
+    simp only [runOps]
+    exact ih _ (inv_step op hb h (hok op List.mem_cons_self)) (fun q hq => hok q (List.mem_cons_of_mem _ hq))
+
+/-! ## the drivers' root world meets the assumptions -/
+
+theorem mem_rootRefs (fs : List Feature) (t s : Id) :
+    s ∈ sources (rootRefs fs) t ↔ ∃ f ∈ fs, s = f.id ∧ t ∈ geomRefs f.geom := by
+  unfold rootRefs
+  rw [mem_addCopies]
+  simp [sources]
+
+theorem rootView_refsComplete (fs : List Feature) : RefsComplete (rootView fs) := by
+  intro id x gx hgx hdep
+  have hfeat : ∀ y gy, geomOf (rootView fs) y = some gy → ∃ g ∈ fs, g.id = y ∧ g.geom = gy ∧
+      AMap.get (rootFeats fs) y = some g := by
+    intro y gy h
+    simp only [rootView, geomOf, rootFind, Option.map_map] at h
+    cases hg : AMap.get (rootFeats fs) y with
+    | none => simp [hg] at h
+    | some g =>
+      simp only [hg, Option.map_some, Function.comp_apply, Option.some.injEq] at h
+      exact ⟨g, (rootFeats_get hg).2, (rootFeats_get hg).1, h, rfl⟩
+  obtain ⟨g, hgfs, hgid, hggeo, hget⟩ := hfeat x gx hgx
+  show x ∈ (dedup (closure (rootRefs fs) (refDepth (rootRefs fs)) id)).filter
+    (fun r => AMap.contains (rootFeats fs) r)
+  simp only [List.mem_filter, mem_dedup, AMap.contains, hget, Option.isSome_some, and_true]
+  rcases hdep with hd | ⟨P, hP, gP, hgP, hidP⟩
+  · exact closure_refDepth_direct ((mem_rootRefs fs id x).2 ⟨g, hgfs, hgid.symm, by rw [hggeo]; exact hd⟩)
+  · obtain ⟨p, hpfs, hpid, hpgeo, _⟩ := hfeat P gP hgP
+    exact closure_refDepth_two ((mem_rootRefs fs id P).2 ⟨p, hpfs, hpid.symm, by rw [hpgeo]; exact hidP⟩)
+      ((mem_rootRefs fs P x).2 ⟨g, hgfs, hgid.symm, by rw [hggeo]; exact hP⟩)
+
+theorem rootView_baseOK (fs : List Feature) : BaseOK (rootView fs) :=
+  ⟨rootView_idsOK fs, rootView_locOK fs, rootView_refsComplete fs⟩
+
+/-- validity of a root world is a finite check -/
+theorem rootView_allValid (fs : List Feature) (o : Oracle)
+    (h : (rootFeats fs).all (fun e => validateG (rootView fs) o e.2.geom) = true) : AllValid (rootView fs) o := by
+  intro x g hg
+  simp only [rootView, geomOf, rootFind, Option.map_map] at hg
+  cases hget : AMap.get (rootFeats fs) x with
+  | none => simp [hget] at hg
+  | some f =>
+    simp only [hget, Option.map_some, Function.comp_apply, Option.some.injEq] at hg
+    rw [List.all_eq_true] at h
+    have := h (x, f) (AMap.get_some_mem hget)
+    rw [← hg]; exact this
 
 end B6.Model.Mutable
